@@ -17,6 +17,7 @@
      exit{elapsed_ms, err}      driver: Mosn.Shutdown() returned - the stage manager goes on to Close and process exit
      quiesce{exited, active}    driver: every request was driven to its end
      abandon{why}               driver: the signal point could not be set up; the run ends here without a signal
+     notice{a, pre, st}         driver (-mode stagee2e): NoticeStop(a) for an attempt that does not come off has returned; st = GetState()
    The variables of Shutdown are bound to what was recorded; the expectations are those of Shutdown's invariants,
    evaluated softly (VTrace!Expect) on the real execution. *)
 EXTENDS Shutdown, VTrace
@@ -120,7 +121,14 @@ TQuiesce == /\ IsEvent("quiesce")
 \* the driver could not set the signal point up (a failure before any signal): nothing of this run is judged
 TAbandon == IsEvent("abandon") /\ Keep(<<vars, stepped, srvOpen, dWaited, dMax, dRemain, dSeen>>)
 
-TraceNext == TAbandon \/ TRun \/ TConnect \/ TPhase \/ TStep \/ TDone \/ TSignal \/ TShutdown \/ TLState \/ TOnShutdown \/ TGoAway
+\* (stage-manager runs, harness/cmd/c11 -mode stagee2e) an earlier life-cycle event that did not come off - a failed
+\* upgrade / reload - was delivered through the stage manager before the signal: the server is Running again
+TNotice == /\ IsEvent("notice")
+           /\ Expect(Ev.st = "Running", "failed-attempt-not-resumed")
+           /\ Expect(~Has(Ev, "panic"), "notice-panicked")
+           /\ Keep(<<vars, stepped, srvOpen, dWaited, dMax, dRemain, dSeen>>)
+
+TraceNext == TNotice \/ TAbandon \/ TRun \/ TConnect \/ TPhase \/ TStep \/ TDone \/ TSignal \/ TShutdown \/ TLState \/ TOnShutdown \/ TGoAway
              \/ TDrain \/ TNew \/ TClean \/ TExit \/ TQuiesce
 TraceSpec == TraceInit /\ [][TraceNext]_tvars
 ====
